@@ -322,6 +322,10 @@ impl Prop for C11P {
             }
         }
     }
+    fn page_guard(&self, tier: Tier, profile: Profile) -> bool {
+        let _ = (tier, profile);
+        true
+    }
     fn rule(&self) -> String {
         "operations that run caller code, on TooDee<Tracked> of every shape in the bound, exact and spare capacity: new (Default), init/fill/clone/TooDee::from(view) of every window/clone_from_slice/clone_from_toodee on the array and on windows (Clone, and Drop of overwritten cells), \
          insert_row/push_row/insert_col/push_col at every index from a custom iterator whose len/next/next_back are caller code (honest, and lying: len-1, len+1, 0, usize::MAX/2+1, usize::MAX), remove_row/remove_col/pop_row/pop_col at every index with every front/back consumption split (Drop of undrained elements inside the drain's destructor), clear, indexed replacement and drop (Drop), \
